@@ -17,6 +17,7 @@ THOROUGH_RUNS = 200000
 MAX_EXCLUDED_FRACTION = 0.25
 SHRINK_RUNS = 300
 SHRINK_S = 60
+FIDELITY_CASES = {'quick': 8, 'thorough': 48}   # real-pool executions replayed in the simulator
 RULE = ('one run = one ensemble call under one seeded pool schedule; distinct = distinct tuple '
         '(variant, start method, noise mode, canonical job->worker partition of every member batch, '
         'respawn positions); non-trivial = at least two workers executed member jobs and noise > 0')
